@@ -141,6 +141,21 @@ _def_stream('m_flags', [
     _KA,
 ])
 
+# a burst whose size is an exact multiple of the 10240-octet socket read: the messages in it are complete and must be acted on
+# without waiting for a later octet
+def _chunk_stream():
+    head = [_CONTACT, _sess_init()]
+    used = len(b''.join(tw.encode(msg) for msg in head))
+    # XFER_SEGMENT START|END with the Transfer Length item: 1 + 1 + 8 + 4 + (2+1+2+8... encoded by the oracle) + 8 + data
+    probe = _transfer(1, [b''])
+    over = len(tw.encode(probe[0]))
+    first = _transfer(1, [b'c' * (10240 - used - over)])
+    second = _transfer(2, [b'd' * (10240 - over - 1)])
+    return head + first + second + [_KA] + _transfer(3, [b'e' * 5]) + [_KA]
+
+
+_def_stream('l_chunk', _chunk_stream())
+
 # long streams
 _def_stream('l_big', [
     _CONTACT, _sess_init(),
@@ -231,7 +246,7 @@ def cases(tier, seed):
             doubles = doubles[:1500]
         out += _cuts_cases(name, 'passive', doubles, 'double', block=128)
     # long streams: directed + random cuts
-    for name in ('l_big', 'l_many'):
+    for name in ('l_big', 'l_many', 'l_chunk'):
         nbytes = len(stream_bytes(name))
         points = _directed_cuts(name)
         directed = [(point,) for point in points]
@@ -251,6 +266,18 @@ def cases(tier, seed):
     for idx in range(40 if thorough else 8):
         out.append(dict(id='loop-%d' % idx, kind='loop', stream=rng.choice(['m_basic', 'm_ext', 'l_many', 'm_zero']),
                         seed=seed * 1000 + idx, policy=rng.choice(['fair', 'octet', 'burst'])))
+    # bursts that end exactly on multiples of the socket read size (and one octet either side), then a pause
+    bidx = 0
+    for bursts in ([10240], [20480], [10240, 20480], [10239], [10241], [6, 10240], [42, 10240, 20479], [20481]):
+        for policy in ('eager', 'fair'):
+            out.append(dict(id='burst-%d' % bidx, kind='loop', stream='l_chunk', seed=seed * 77 + bidx, policy=policy, bursts=bursts))
+            bidx += 1
+    for bursts in ([30001], [30000 + 12000], [5, 100]):
+        out.append(dict(id='burst-%d' % bidx, kind='loop', stream='l_big', seed=seed * 77 + bidx, policy='eager', bursts=bursts))
+        bidx += 1
+    # the daemon started the way its command line does it (tcpcl.cmd.root_logging with --log-level debug / info): framing unchanged
+    for level in ('DEBUG', 'INFO'):
+        out.append(dict(id='startup-%s' % level, kind='startup', level=level, stream='m_ext', role='passive'))
     # codec half
     ncodec = 60 if thorough else 12
     for idx in range(ncodec):
@@ -407,17 +434,37 @@ def _run_loop_case(case):
         return orig(pkt)
 
     end.hdl.recv_message = recorder
-    # the scripted peer writes the whole stream; the scheduler chunks it
-    sent = 0
-    while sent < len(data):
-        sent += sock_a.tx.write(data[sent:])
-    res = sim.settle(200000)
     want = []
     prev = 0
     for (_msg, endpos) in expected:
         want.append(data[prev:endpos])
         prev = endpos
     viols = []
+    if case.get('bursts'):
+        # the peer writes a burst, then pauses until the world is quiet: whatever is complete by then must have been acted on
+        # (through the real socket callback, which reads in 10240-octet pieces)
+        bounds = [0] + [cut for cut in case['bursts'] if 0 < cut < len(data)] + [len(data)]
+        res = 'quiescent'
+        for (lo, hi) in zip(bounds[:-1], bounds[1:]):
+            sent = lo
+            while sent < hi:
+                count = sock_a.tx.write(data[sent:hi])
+                sent += count
+                if not count:
+                    sim.settle(200000)
+            res = sim.settle(200000)
+            done = [item for idx, item in enumerate(want) if expected[idx][1] <= hi]
+            if not sim.world.callback_errors and handed != done:
+                viols.append(_viol('burst up to octet %d of %s through the socket: %d message(s) acted on while the peer pauses, %d are complete' % (
+                    hi, name, len(handed), len(done)), kind='handed-mismatch', stream=name, policy=case['policy'],
+                    late_keepalive=(handed == done[:-1] and done[-1] == b'\x04')))
+                break
+    else:
+        # the scripted peer writes the whole stream; the scheduler chunks it
+        sent = 0
+        while sent < len(data):
+            sent += sock_a.tx.write(data[sent:])
+        res = sim.settle(200000)
     errs = sim.world.callback_errors
     if errs:
         first = errs[0]
@@ -425,7 +472,7 @@ def _run_loop_case(case):
         viols.append(_viol('loop run: callback raised %s: %s' % (first.exc_type, first.exc), kind='raised',
                            in_contact=(len(handed) == 0), partial_contact=(len(handed) == 0), exc_type=first.exc_type,
                            stream=name, policy=case['policy']))
-    elif handed != want:
+    elif handed != want and not viols:
         lost = bool(handed) and len(handed[0]) > 6
         late_ka = (handed == want[:-1] and want[-1] == b'\x04')
         viols.append(_viol('loop run (%s): handed %d messages, stream has %d' % (case['policy'], len(handed), len(want)),
@@ -687,6 +734,48 @@ def run_case(case):
                 obs[key] = obs.get(key, 0) + val
             violations += viols
         sample = dict(kind='cuts', stream=name, stream_len=len(stream_bytes(name)), role=case['role'], first_cuts=case['cuts'][:3])
+    elif kind == 'startup':
+        import logging
+        import os
+        import scapy.config
+        import tcpcl.cmd
+        root = logging.getLogger()
+        saved = (list(root.handlers), root.level, scapy.config.conf.debug_dissector, root.manager.disable)
+        devnull = open(os.devnull, 'w')
+        try:
+            logging.disable(logging.NOTSET)   # the harness normally silences logging altogether; a daemon does not
+            for hdl in list(root.handlers):
+                root.removeHandler(hdl)
+            import sys as _sys
+            saved_err = _sys.stderr
+            _sys.stderr = devnull
+            try:
+                tcpcl.cmd.root_logging(case['level'])
+            finally:
+                _sys.stderr = saved_err
+            for hdl in root.handlers:
+                if hasattr(hdl, 'setStream'):
+                    hdl.setStream(devnull)
+            name = case['stream']
+            nbytes = len(stream_bytes(name))
+            for cut in range(1, nbytes):
+                viols, counters = run_framing(name, (cut,), case['role'])
+                evaluations += 1
+                classes.add('startup:%s:%s:%d' % (case['level'], name, cut))
+                for key, val in counters.items():
+                    obs[key] = obs.get(key, 0) + val
+                violations += [dict(viol, what='[started with --log-level %s] %s' % (case['level'], viol['what'])) for viol in viols]
+            obs['startup_runs'] = obs.get('startup_runs', 0) + 1
+        finally:
+            for hdl in list(root.handlers):
+                root.removeHandler(hdl)
+            for hdl in saved[0]:
+                root.addHandler(hdl)
+            root.setLevel(saved[1])
+            logging.disable(saved[3])
+            scapy.config.conf.debug_dissector = saved[2]
+            devnull.close()
+        sample = dict(kind='startup', level=case['level'])
     elif kind == 'loop':
         viols, counters, res = _run_loop_case(case)
         evaluations = 1
